@@ -114,6 +114,114 @@ func c18Names() []string {
 	return out
 }
 
+// c18LongPaths: a fid is walked back and forth in place ("d", "..", ".") until the
+// path the server keeps for it is as long as the host allows, for every length around
+// that limit; then it is walked through symbolic links (to a deeper and to a shallower
+// place inside the export) and up again. However the server copes with the host
+// refusing the long name, the result stays inside.
+func c18LongPaths(dotu bool, lo, hi int) Scenario {
+	name := fmt.Sprintf("paths padded to %d..%d bytes, then through links and up dotu=%v", lo, hi, dotu)
+	return Scenario{Name: name, Run: func(rc *RunCtx) *Result {
+		res := &Result{Exhaustive: true}
+		env := c18Setup()
+		defer func() { os.RemoveAll(env.base) }()
+		os.Symlink("d/dd", filepath.Join(env.root, "deep"))
+		seen := map[string]bool{}
+		fail := func(sig, msg string) {
+			if !seen[sig] && len(res.Findings) < 6 {
+				seen[sig] = true
+				res.Findings = append(res.Findings, Finding{Sig: "C18/" + sig, Msg: msg})
+			}
+		}
+		before := env.outsideState()
+		tails := [][]string{{"deep", "..", ".."}, {"deep", "..", "..", ".."}, {"d", "dd", "up", "..", ".."}, {"deep", "..", "..", "canary"}, {"..", ".."}}
+		for T := lo; T <= hi; T++ {
+			if rc.Expired() {
+				res.Exhaustive = false
+				res.CapHit = "internal deadline"
+				break
+			}
+			for ti, tail := range tails {
+				var leak string
+				body := func() {
+					h := newUfsH(env.root, 8216, dotu)
+					cl := h.Connect()
+					ver := "9P2000"
+					if dotu {
+						ver = "9P2000.u"
+					}
+					cl.Version(8216, ver)
+					tag := uint16(1)
+					rpc := func(m *wire.Msg) *wire.Msg {
+						tag++
+						m.Tag = tag
+						r := cl.Rpc(m)
+						if l := env.leak(r); l != "" && leak == "" {
+							leak = fmt.Sprintf("%s -> %s", m, l)
+						}
+						return r
+					}
+					rpc(tattach(0, 0, wire.NOFID, "", uint32(os.Geteuid()), dotu))
+					rpc(twalk(0, 0, 1))
+					// pad: "/d/.." adds 5 bytes, "/." adds 2
+					pad := T - len(env.root)
+					var el []string
+					flush := func() {
+						if len(el) > 0 {
+							rpc(twalk(0, 1, 1, el...))
+							el = nil
+						}
+					}
+					for pad > 0 {
+						switch {
+						case pad == 2 || pad == 4 || pad == 7 || pad == 9:
+							el = append(el, ".")
+							pad -= 2
+						case pad >= 5:
+							el = append(el, "d", "..")
+							pad -= 5
+						default:
+							pad = 0
+						}
+						if len(el) >= 15 {
+							flush()
+						}
+					}
+					flush()
+					if r := rpc(twalk(0, 1, 2, tail...)); r != nil && r.Type == wire.Rwalk && len(r.Wqid) == len(tail) {
+						rpc(&wire.Msg{Type: wire.Tstat, Fid: 2})
+						rpc(twalk(0, 2, 3, "canary"))
+						if o := rpc(&wire.Msg{Type: wire.Topen, Fid: 2, Mode: 0}); o != nil && o.Type == wire.Ropen {
+							rpc(&wire.Msg{Type: wire.Tread, Fid: 2, Offset: 0, Count: 4096})
+						}
+						rpc(twalk(0, 2, 4))
+						rpc(&wire.Msg{Type: wire.Tcreate, Fid: 4, Name: "escaped", Perm: 0644, Mode: 1})
+					}
+				}
+				x := vs.Run(nil, body, vs.Options{Horizon: 100000000})
+				res.Evals++
+				res.Nontrivial++
+				if len(x.Panics) > 0 {
+					fail("panic/"+x.Panics[0].Frame, fmt.Sprintf("path of %d bytes, then %v: panic %s", T, tail, x.Panics[0].Value))
+				}
+				if leak != "" {
+					fail("leak/long-path", fmt.Sprintf("fid padded to a path of %d bytes, then walked %v: %s", T, tails[ti], leak))
+				}
+				if after := env.outsideState(); after != before {
+					fail("outside-modified/long-path", fmt.Sprintf("fid padded to a path of %d bytes, then walked %v, changed something outside the export:\n%s", T, tails[ti], diffLines(before, after)))
+					os.RemoveAll(env.base)
+					env = c18Setup()
+					os.Symlink("d/dd", filepath.Join(env.root, "deep"))
+					before = env.outsideState()
+				}
+				os.Remove(filepath.Join(env.root, "escaped"))
+				os.Remove(filepath.Join(env.root, "d", "escaped"))
+			}
+		}
+		return res
+	}}
+}
+
 // c18Check inspects a reply for anything that belongs to the outside.
 func (e *c18Env) leak(r *wire.Msg) string {
 	if r == nil {
@@ -505,6 +613,11 @@ func c18Scenarios(tier string) []Scenario {
 		pw = 3
 	}
 	out = append(out, c18PipelinedWalk(false, pw), c18PipelinedWalk(true, pw))
+	// PATH_MAX is 4096 on the host: every spelled length from well below to beyond it
+	out = append(out, c18LongPaths(false, 4060, 4082), c18LongPaths(true, 4083, 4104))
+	if tier == "thorough" {
+		out = append(out, c18LongPaths(true, 4000, 4059), c18LongPaths(false, 4083, 4140))
+	}
 	uses := []string{"attach", "walk1", "walkN", "create", "mkdir", "rename"}
 	parts := 4
 	for _, u := range uses {
